@@ -281,7 +281,9 @@ def uniform_refinement(image: darsia.Image, levels: int) -> darsia.Image:
                 slice_1 = i_slice(slice(1, None, 2))
 
                 # Determine weight for slice_0 elements
-                axis_length = image.img.shape[i]
+                # NOTE: Use the current extent - on later levels it differs from the extent
+                # of the original image.
+                axis_length = array.shape[i]
                 weight_0 = 0.5 * np.ones(array[slice_0].shape)
                 half_axis_length = int(np.floor(axis_length) / 2)
                 double_axis_length = 2 * half_axis_length
